@@ -60,7 +60,15 @@ pub fn run(kv: &Args) -> i32 {
         // real proof, with a replica of the rng to recover the nonce
         let mut prng = rng(seed, &format!("c14-nonce-{case}"));
         let mut prng2 = rng(seed, &format!("c14-nonce-{case}"));
-        let proof = DLogProof::prove(&x, &base, &mut transcript(&ctx), &mut prng);
+        let proof = match std::panic::catch_unwind(std::panic::AssertUnwindSafe(|| DLogProof::prove(&x, &base, &mut transcript(&ctx), &mut prng))) {
+            Ok(p) => p,
+            Err(_) => {
+                n_eval += 1;
+                oracle_fail.push(format!("case {case}: DLogProof::prove panicked (completeness, incl. x = 0 / identity points); x={} B={} sid={} party={} action={} label={}",
+                    hex_of_scalar(&x), point_hex(&base), hx(&ctx.sid), ctx.party, hx(&ctx.action), hx(ctx.label)));
+                continue;
+            }
+        };
         let nonce = Scalar::random(&mut prng2);
         let t = ProjectivePoint::from(proof.t);
         // model: context prefix computed by the model itself
@@ -119,7 +127,15 @@ pub fn run(kv: &Args) -> i32 {
         }
         for (kind, t2, s2, y2, b2, c2) in muts {
             let pf = DLogProof { t: t2.to_affine(), s: s2 };
-            let verdict = pf.verify(&y2, &b2, &mut transcript(&c2)).unwrap_u8();
+            let verdict = match std::panic::catch_unwind(std::panic::AssertUnwindSafe(|| pf.verify(&y2, &b2, &mut transcript(&c2)).unwrap_u8())) {
+                Ok(v) => v,
+                Err(_) => {
+                    n_eval += 1;
+                    oracle_fail.push(format!("case {case} {kind}: DLogProof::verify panicked; x={} B={} t={} s={} y={} sid={}",
+                        hex_of_scalar(&x), point_hex(&base), point_hex(&t2), hex_of_scalar(&s2), point_hex(&y2), hx(&c2.sid)));
+                    continue;
+                }
+            };
             let pre2 = drv.run("c14.ctx", &[hx(&c2.sid), format!("{:x}", c2.party), hx(&c2.action), hx(c2.label)]).unwrap()[0].clone();
             let mv = drv.run("c14.verify", &[point_hex(&t2), hex_of_scalar(&s2), point_hex(&y2), point_hex(&b2), pre2]);
             n_eval += 1;
